@@ -134,6 +134,30 @@ def suite_batches(seed, tier):
                 f"list_eqb (fun a b => (fst a =? fst b) && list_eqb Z.eqb (snd a) (snd b)) "
                 f"(with_idxs 0 (batched {cnat(n)} {czl(items)})) {exp_i}")
             meta.append({"n_items": n_items, "n": n})
+        # counting pass: the number of SMILES is the number of lines, whatever the file sizes (on both sides
+        # of 64 KiB, 1 MiB, 2 MiB: block-wise readers), with or without a final newline, over several files
+        from bblean.smiles import calc_num_smiles, iter_smiles_from_paths
+        for kk in range(8 if tier == "quick" else 40):
+            nfiles = rng.choice([1, 1, 2, 3])
+            ps, want = [], 0
+            for j in range(nfiles):
+                target = rng.choice([100, 2 ** 16, 2 ** 20, 2 ** 20, 2 ** 21, 3 * 2 ** 20]) + rng.choice([-7, -1, 0, 1, 9, 4097])
+                line = "C" * rng.choice([1, 7, 40, 79])
+                n = max(1, target // (len(line) + 1))
+                txt = (line + "\n") * n
+                if rng.random() < 0.5:
+                    txt = txt[:-1]                     # no trailing newline: the last line still counts
+                pth = Path(tmp) / f"count-{kk}-{j}.smi"
+                pth.write_text(txt)
+                ps.append(pth)
+                want += n
+            got = calc_num_smiles(ps if nfiles > 1 or rng.random() < 0.5 else ps[0])
+            it = sum(1 for _ in iter_smiles_from_paths(ps))
+            if got != want or it != want:
+                r.bad.append({"suite": "batches", "what": f"calc_num_smiles counts {got} SMILES (iteration yields {it}) "
+                              f"in files that hold {want} lines", "file_sizes": [p_.stat().st_size for p_ in ps]})
+            for p_ in ps:
+                os.unlink(p_)
     out = eval_cases("batches", PRE, terms, shard=300)
     r.cases = len(terms)
     r.nontrivial = len({str(m) for m in meta if m["n_items"] > m["n"]})
